@@ -47,3 +47,6 @@ def run(ctx):
     ctx.floor("F9", 4)
     ctx.floor("F10", 9)
     ctx.floor("F11", 6)
+    from ..engines import forestrules as FE
+    FE.e13_reverse_switch_read_live(ctx)
+    ctx.floor("E13", 2)
